@@ -131,7 +131,7 @@ theorem wStep_nextId {w : W} (hw : WInv w) (now : Nat) (c : Call) :
   | put k m d => exact ⟨Or.inr rfl, fun _ _ => rfl⟩
   | mput k ps => exact ⟨Or.inr rfl, fun _ _ => rfl⟩
   | get k o =>
-      refine ⟨Or.inl (readLoop_state hw k _).2.2.1, fun t h => ?_⟩
+      refine ⟨Or.inl (readLoop_state hw k _ _).2.2.1, fun t h => ?_⟩
       unfold committedTok at h
       cases ho : (wStep w now (.get k o)).2 <;> simp at h
   | getRanges k rs =>
@@ -139,7 +139,7 @@ theorem wStep_nextId {w : W} (hw : WInv w) (now : Nat) (c : Call) :
       · simp only [wStep]
         by_cases hr : rs.isEmpty
         · simp [hr]
-        · simp only [hr, Bool.false_eq_true, if_false]; exact Or.inl (readLoop_state hw k _).2.2.1
+        · simp only [hr, Bool.false_eq_true, if_false]; exact Or.inl (readLoop_state hw k _ _).2.2.1
       · unfold committedTok at h
         cases ho : (wStep w now (.getRanges k rs)).2 <;> simp at h
   | delete k =>
